@@ -330,7 +330,7 @@ Definition verify_method (cx : actx) (ep : endpoint) (rq : request) (now : Z) (j
       | Some t =>
           if ep_lookup ep then
             match cx_tok cx t with
-            | TokClient (_ :: _ as c) => (VOk {| ai_client := Some c; ai_method := MBearerBody; ai_token := Some t |}, jdb)
+            | TokClient ((_ :: _) as c) => (VOk {| ai_client := Some c; ai_method := MBearerBody; ai_token := Some t |}, jdb)
             | TokClient [] => (VOk {| ai_client := None; ai_method := MBearerBody; ai_token := Some t |}, jdb)
             | _ => (VSkip, jdb)
             end
@@ -443,7 +443,7 @@ Definition parse_request (cx : actx) (ep : endpoint) (rq : request) (now : Z) (j
     | Ok None => (Ok (PGeneric (r_client_id rq) (r_authflag rq)), j1)
     | Ok (Some ai) =>
         match ai_client ai with
-        | Some (_ :: _ as c) => (Ok (PGeneric (Some c) (r_authflag rq || authenticating (ai_method ai))), j1)
+        | Some ((_ :: _) as c) => (Ok (PGeneric (Some c) (r_authflag rq || authenticating (ai_method ai))), j1)
         | _ => (Ok (PGeneric (r_client_id rq) (r_authflag rq)), j1)
         end
     end.
